@@ -34,6 +34,10 @@ theorem pool_defaults_tie :
 theorem cond_broadcast_handshake :
     condBroadcasts = condBroadcastsAfterUnlock ∧ 2 ≤ condBroadcasts := by decide
 
+/-- C09: the round-robin cursor is advanced by an atomic add of one and written in no other way: two
+    BIND picks never obtain the same turn (what makes `pickRR` an atomic step of the pool model) -/
+theorem rr_cursor_atomic_add : rrCursorAtomicAdds = 1 ∧ rrCursorOtherWrites = 0 := by decide
+
 theorem balancer_name : balancerName = "grpc_gcp" := by decide
 
 end GcpVerif.Ties
